@@ -213,6 +213,10 @@ static int walk(const json &plan) {
     const std::string tag = plan.value("tag", group);
     const bool checkEq = plan.value("check_eq", true);
     const bool checkValid = plan.value("check_valid", true); // false: only rejected calls are judged (C07)
+    // C17: no comparison with the specification at all - every execution's outcome and complete
+    // projection are folded into a digest, and the digests of different BUILDS are compared
+    const bool compare = plan.value("compare", true);
+    unsigned long long digest = 0;
     const Restrict rs(plan);
     installCrashNote(plan.value("crash_note", std::string()));
 
@@ -230,7 +234,7 @@ static int walk(const json &plan) {
         std::string key = r.objs[0]->enc().dump();
         states[key].push_back(std::move(r));
     }
-    size_t transitions = 0, executions = 0, failures = 0, rejected = 0, orphan = 0, repsStored = 1;
+    size_t transitions = 0, executions = 0, failures = 0, rejected = 0, orphan = 0, repsStored = 1, divergedExecs = 0;
     std::map<std::string, size_t> opCount, outCount;
     json replays = json::array(), samples = json::array(), failNotes = json::array();
     std::vector<json> pending;
@@ -290,15 +294,35 @@ static int walk(const json &plan) {
                 json before = (expOut != "ok") ? o->exact() : json();
                 std::string out = o->apply(call);
                 const json fullObs = o->project();
+                if (!compare) {
+                    std::string blob = fromKey + "|" + callStr + "|" + std::to_string(fam) + "|" + out + "|" + fullObs.dump() +
+                                       "|" + o->enc().dump();
+                    digest += std::hash<std::string>()(blob) * 1099511628211ull + blob.size();
+                    next.objs.push_back(std::move(o));
+                    continue;
+                }
                 json obs = rs.ofObs(fullObs);
                 json enc = rs.ofState(o->enc());
                 json expObs = rs.ofObs(tr.at("obs"));
                 const json expEnc = rs.ofState(tr.at("to"));
                 rs.mask(tr.at("obs"), fullObs, expObs, obs);
                 std::string why;
+                // C03 (mask_by_has): once the real object and the specification disagree on which
+                // pairs are edges - another property's subject - the values of the labels along
+                // this history can no longer be predicted: the history is not followed further
+                const bool divergedEdges = rs.maskByHas && tr.at("obs").contains("has") && fullObs.contains("has") &&
+                                           tr.at("obs")["has"] != fullObs["has"];
+                if (divergedEdges) {
+                    ++divergedExecs;
+                    allOk = false;
+                    next.objs.push_back(std::move(o));
+                    continue;
+                }
                 if (!checkValid && expOut == "ok")
                     ; // a valid call in a rejected-calls scenario: executed to reach the next state only
-                else if (out != expOut)
+                else if (out != expOut && !(rs.maskByHas && out != "out_of_range" && expOut != "out_of_range"))
+                    // (with mask_by_has an ok/invalid_argument difference follows from a
+                    // disagreement about which pairs are edges: not this check's subject)
                     why = "outcome: expected " + expOut + ", got " + out;
                 else if (!checkValid)
                     why = (o->exact() != before)
@@ -371,7 +395,8 @@ static int walk(const json &plan) {
     json summary = {{"mode", "walk"},      {"group", group},       {"families", fams},
                     {"transitions", transitions}, {"executions", executions}, {"states", states.size()},
                     {"representatives", repsStored}, {"rejected_transitions", rejected},
-                    {"failures", failures}, {"orphan_transitions", orphan}, {"replays", replays},
+                    {"failures", failures}, {"orphan_transitions", orphan}, {"histories_left_after_edge_divergence", divergedExecs},
+                    {"replays", replays}, {"digest", std::to_string(digest)},
                     {"fail_notes", failNotes}, {"ops", opCount}, {"outcomes", outCount}, {"samples", samples}};
     std::cout << "SUMMARY " << summary.dump() << std::endl;
     return failures ? 1 : (orphan ? 2 : 0);
